@@ -40,8 +40,8 @@ VIEW MathView
 INVARIANTS
   Inv_Math_Report
   Inv_Math_Exact
-  Inv_Math_NoOverBurn_ModF6
-  Inv_Math_Worth_ModF6
+  Inv_Math_NoOverBurn
+  Inv_Math_Worth
   Inv_Math_ExactAtOne
-  Inv_Math_Dust_ModF6
+  Inv_Math_Dust
 CHECK_DEADLOCK FALSE
